@@ -7,7 +7,7 @@
    them with watchdogs, goroutine counts and the race detector. *)
 From Coq Require Import ZArith List Bool Lia.
 Import ListNotations.
-From V Require Import Base.Tree Base.Bytes C13.Model C13.Spec C13.Proofs C13.ProofsSys.
+From V Require Import Base.Tree Base.Bytes C13.Model C13.Closers C13.Spec C13.Proofs C13.ProofsSys C13.ProofsClosers.
 Open Scope Z_scope.
 
 (* (1) Cancellation.  If the passed context or the connection context is done, then for EVERY content of the package
@@ -65,19 +65,87 @@ Theorem C13_send_prefix : forall pk d,
 Proof. intros pk d. exact (send_loop_prefix pk O d). Qed.
 
 (* (3) After Close.  Every receive call reports the closed condition, every send call reports it and writes nothing, a
-   second Close reports it; and under EVERY schedule after the channel was marked closed it stays closed and its
-   package queue only loses packages (the drain): the reader's WritePacket returns at its closed check. *)
+   second Close reports it; and under EVERY schedule after the channel was marked closed it stays closed, its package
+   queue only loses packages (the drain) and the reader is never at a send to the channel's queues (after Close that
+   would be a send on a nil channel: blocked for ever with the read lock held).  Whatever a packet handed to
+   WritePacket of a closed channel would yield - ONE HeaderOnlyPackage for a header-only packet (length 8, any type,
+   with or without EOM), any list of parsed packages for a packet with a body - the call is: read lock, closed check,
+   unlock; nothing is delivered, no error is raised, no lock is kept. *)
 Theorem C13_after_close :
   (forall s w, n_closed s = true -> next_package s w = [NClosed]) /\
   (forall d pk, send_call true d pk = ([], SClosed)) /\
   (forall s, closed s = true -> wpend s = false -> wheld s = false -> closer_step (set_c s CStart) = Some (set_c s (CDone 2))) /\
   (forall F s ls, inv F s -> closed s = true ->
-     closed (exec s ls) = true /\ (pq (exec s ls) = pq s \/ pq (exec s ls) = [])).
+     closed (exec s ls) = true /\ (pq (exec s ls) = pq s \/ pq (exec s ls) = []) /\
+     match rp (exec s ls) with RHold _ => False | _ => True end) /\
+  (forall s p, closed s = true -> wpend s = false -> wheld s = false ->
+     let s' := run_reader 3 (direct_write s (pkt_items p)) in
+     rp s' = RTop /\ pq s' = pq s /\ rd s' = rd s /\ cerr s' = cerr s /\ closed s' = true).
 Proof.
   split; [exact closed_result|]. split; [exact send_closed|]. split.
   - intros s Hc Hp Hh. unfold closer_step, set_c. cbn [cp wpend wheld closed]. rewrite Hp, Hh, Hc. reflexivity.
-  - intros F s ls. exact (closed_exec F ls s).
+  - split.
+    + intros F s ls Hi Hc. destruct (closed_exec F ls s Hi Hc) as [H1 H2].
+      split; [exact H1|]. split; [exact H2 | exact (no_send_on_closed F s ls Hi Hc)].
+    + intros s p Hc Hp Hh s'.
+      destruct (closed_drops (direct_write s (pkt_items p)) (pkt_items p) Hc Hp Hh eq_refl) as [H1 [H2 [H3 [H4 [H5 _]]]]].
+      repeat split; assumption.
 Qed.
+
+(* a packet for the closed channel that comes through the reader goroutine: the channel is not registered any more, the
+   packet is reported on the connection's error queue (C12_unknown_channel) - unless the reader had looked the channel
+   up BEFORE Close unregistered it and reaches WritePacket afterwards: then the case above applies.  After Close has
+   returned, the closed channel never holds the reader up: a reader that cannot move has ended, waits for bytes, or is
+   parked on the full CONNECTION error queue (known finding reader-parked-on-full-conn-errch). *)
+Theorem C13_reader_free_after_close : forall F s, inv F s -> closed s = true -> wpend s = false -> wheld s = false ->
+  reader_step s = None ->
+  rp s = REnd \/ (rp s = RRead /\ incoming s = [] /\ tclosed s || tfail s = false) \/ (rp s = RPushErr /\ ccap s <= cerr s).
+Proof. exact reader_free_after_close. Qed.
+
+(* the schedule of the window for a header-only packet (the server's acknowledgement of the teardown): a consumer holds
+   the read lock, Close waits for the write lock, the reader has found the channel and queues at the RLock; the
+   consumer leaves; Close completes; the reader passes the closed check and goes back to reading: nothing queued,
+   nobody blocked; with the connection closed afterwards the reader ends *)
+Example C13_ack_in_window_example :
+  let i := TL [TI 0; TL [TI 1; TI 1; TI 11; TI 0]] in
+  let '(sA, sB, sC) := window_states i in
+  cp sA = CLockAcq /\ rp sB = RLockCh [7] /\ rd sB = 1 /\ wpend sB = true /\ registered sB = true /\
+  closer_done sC = true /\ closed sC = true /\ pq sC = [] /\ rp sC = RRead /\ rd sC = 0 /\
+  reader_ended (conn_closed_later sC) = true.
+Proof. vm_compute. repeat split; reflexivity. Qed.
+
+(* (3b) Several closers of ONE channel.  n + 1 goroutines run Channel.Close on the same logical channel (Conn.Close
+   calls the same function); a schedule is any list of closer indices.  In EVERY reachable state: nobody has panicked,
+   the client-side teardown (unregister, close and drain the queues) was started at most once, every closer that has
+   returned returned nil / its own error list (code 0 / 1) or ErrChannelClosed (code 2); as long as a closer has not
+   returned some closer can move (no deadlock), and no run has more than 9 moves per closer; once all have returned
+   EXACTLY ONE has performed the teardown and returned its own result, all n others report ErrChannelClosed, the
+   channel is closed and unregistered (once), no lock is held or requested. *)
+Theorem C13_concurrent_close : forall left n ls,
+  let s := cexec (cinit true left (S n)) ls in
+  (c_panic s = false /\ c_unregs s <= 1 /\
+   (forall i c, nth_error (c_pcs s) i = Some (CDone c) -> c = 2 \/ c = (if left then 1 else 0))) /\
+  (all_returned s = false -> exists i s', cstep s i = Some s') /\
+  (all_returned s = true ->
+     cnt is_win (c_pcs s) = 1 /\ cnt lost (c_pcs s) = Z.of_nat n /\
+     c_unregs s = 1 /\ c_registered s = false /\ c_closed s = true /\ c_wheld s = false /\ c_pending s = 0) /\
+  (forall ls' s', crun_eff (cinit true left (S n)) ls' = Some s' -> Z.of_nat (length ls') <= 9 * Z.of_nat (S n)).
+Proof. exact concurrent_close. Qed.
+
+(* the same closers WITHOUT the re-check of `closed` under the write lock ("closed by a concurrent call in the
+   meantime"): two closers that have both passed the first check - the second one unregisters again and calls close()
+   on the nil channel: panic *)
+Example C13_concurrent_close_unchecked_refuted :
+  let s := crun_window false false 2 in
+  window_reached false false 2 = true /\ c_panic s = true /\ c_unregs s = 2 /\ c_pcs s = [CDone 0; CDone (-1)].
+Proof. vm_compute. repeat split; reflexivity. Qed.
+
+(* non-vacuity: three closers, all in the window (teardown written, lock not yet requested), then round robin *)
+Example C13_concurrent_close_example :
+  let s := crun_window true false 3 in
+  window_reached true false 3 = true /\ all_returned s = true /\ c_pcs s = [CDone 0; CDone 2; CDone 2] /\
+  c_teardowns s = 3 /\ c_unregs s = 1 /\ c_panic s = false.
+Proof. vm_compute. repeat split; reflexivity. Qed.
 
 (* (4) Conn.Close.  Under every schedule, once Conn.Close has returned (it only does so through Channel.Close,
    ctxCancel() and conn.Close()) the channel is closed and unregistered, the connection context is done and the
@@ -208,6 +276,8 @@ Print Assumptions C13_cancel_until_failing_callback.
 Print Assumptions C13_send_cancelled.
 Print Assumptions C13_send_prefix.
 Print Assumptions C13_after_close.
+Print Assumptions C13_reader_free_after_close.
+Print Assumptions C13_concurrent_close.
 Print Assumptions C13_conn_close.
 Print Assumptions C13_reader_guard.
 Print Assumptions C13_reader_ends_partial.
